@@ -112,7 +112,10 @@ def datadesc(datafield: str) -> str:
     :rtype: str
     """
 
-    (_, _, _, desc) = RTCM_DATA_FIELDS[datafield[0:5]]
+    name = datafield
+    while name not in RTCM_DATA_FIELDS and "_" in name:
+        name = name.rsplit("_", 1)[0]  # strip (nested) group index e.g. IDF011_01
+    (_, _, _, desc) = RTCM_DATA_FIELDS[name]
     return desc
 
 
